@@ -103,6 +103,17 @@ theorem C17_upTo_threads (allowed : Int) (behs : List Beh) (sched : List Tid) :
     simp
     rfl
 
+/-- **C17_upTo_threads_cancel.** The same for every budget (negative ones included), under every
+schedule: the members' context is cancelled exactly if the caller cancelled, or the call has returned,
+or some response handled so far was a failure and the failures handled so far exceed the budget. -/
+theorem C17_upTo_threads_cancel (allowed : Int) (behs : List Beh) (sched : List Tid) :
+    let C := upTo behs.length allowed
+    let c := exec C (Config.spawn C behs) sched
+    c.cancelled = (c.envCancelled || c.consReturned
+      || decide (0 < failuresT (c.hist.take c.handled) ∧ (failuresT (c.hist.take c.handled) : Int) > allowed)) := by
+  intro C c
+  rw [(C17_threads_refine C behs sched).2, C17_upTo_cancel]
+
 /-- **C17_goroutines_end.** Under every schedule - whatever the consumer did, including returning
 early after the first response (Fast, Race) and never receiving again:
 1. if no goroutine started by `executeEach` can take a step, then all of them (every member goroutine
